@@ -285,6 +285,9 @@ func changedTables(a, c RawDump) []string {
 		names[k] = true
 	}
 	for k := range names {
+		if len(a[k]) == 0 && len(c[k]) == 0 {
+			continue // a table of a bucket instantiated meanwhile, without rows of this ledger
+		}
 		x, _ := json.Marshal(a[k])
 		y, _ := json.Marshal(c[k])
 		if string(x) != string(y) {
